@@ -160,4 +160,140 @@ theorem mem_write_err {α : Type} (m : Mem) (r : Register α) (v : α) (e : MemE
     (h : r.write v m.raw = .err e) : m.write r v = .err e := by
   simp [Mem.write, h]
 
+/-! ### `new()` and the representation invariant -/
+
+open MemoryProtection in
+theorem setAccessRight_sizes (mp mp' : MemoryProtection) (a : Nat) (r : AccessRight)
+    (h : mp.setAccessRight a r = .ok mp') :
+    mp'.memorySize = mp.memorySize ∧ mp'.inner.length = mp.inner.length := by
+  unfold setAccessRight at h
+  split at h
+  · cases h
+  · cases h; simp
+
+open MemoryProtection in
+theorem setAccessRightFrom_sizes (r : AccessRight) (mp mp' : MemoryProtection) (a n : Nat)
+    (h : setAccessRightFrom r mp a n = .ok mp') :
+    mp'.memorySize = mp.memorySize ∧ mp'.inner.length = mp.inner.length := by
+  induction n generalizing mp a with
+  | zero => cases h; exact ⟨rfl, rfl⟩
+  | succ k ih =>
+    simp only [setAccessRightFrom] at h
+    split at h
+    · next mp1 h1 =>
+      have := setAccessRight_sizes mp mp1 a r h1
+      have := ih mp1 (a + 1) h
+      omega
+    · cases h
+    · cases h
+
+open MemoryProtection in
+theorem initProtection_sizes (rs : List RegInit) (mp mp' : MemoryProtection)
+    (h : initProtection rs mp = .ok mp') :
+    mp'.memorySize = mp.memorySize ∧ mp'.inner.length = mp.inner.length := by
+  induction rs generalizing mp with
+  | nil => cases h; exact ⟨rfl, rfl⟩
+  | cons r rs ih =>
+    simp only [initProtection] at h
+    split at h
+    · next mp1 h1 =>
+      have := setAccessRightFrom_sizes _ _ _ _ _ h1
+      have := ih mp1 h
+      omega
+    · cases h
+    · cases h
+
+/-- an initialiser that keeps the image length (every generated `write` does) -/
+def RegInit.LengthPreserving (r : RegInit) : Prop :=
+  ∀ w, r.init = some w → ∀ raw raw', w raw = .ok raw' → raw'.length = raw.length
+
+theorem initRaw_length (rs : List RegInit) (raw raw' : Bytes) (hp : ∀ r ∈ rs, r.LengthPreserving)
+    (h : initRaw rs raw = .ok raw') : raw'.length = raw.length := by
+  induction rs generalizing raw with
+  | nil => cases h; rfl
+  | cons r rs ih =>
+    simp only [initRaw] at h
+    split at h
+    · exact ih raw (fun x hx => hp x (by simp [hx])) h
+    · next w hw =>
+      split at h
+      · next raw1 h1 =>
+        have := hp r (by simp) w hw raw raw1 h1
+        have := ih raw1 (fun x hx => hp x (by simp [hx])) h
+        omega
+      · cases h
+
+theorem initFragments_sizes (fs : List Fragment) (raw raw' : Bytes) (mp mp' : MemoryProtection)
+    (hp : ∀ f ∈ fs, ∀ r ∈ f.regs, r.LengthPreserving)
+    (h : initFragments fs raw mp = .ok (raw', mp')) :
+    raw'.length = raw.length ∧ mp'.memorySize = mp.memorySize ∧ mp'.inner.length = mp.inner.length := by
+  induction fs generalizing raw mp with
+  | nil => cases h; exact ⟨rfl, rfl, rfl⟩
+  | cons f fs ih =>
+    simp only [initFragments] at h
+    split at h
+    · cases h
+    · cases h
+    · next mp1 h1 =>
+      split at h
+      · cases h
+      · cases h
+      · next raw1 h2 =>
+        have := initProtection_sizes _ _ _ h1
+        have := initRaw_length _ _ _ (hp f (by simp)) h2
+        have := ih raw1 mp1 (fun g hg => hp g (by simp [hg])) h
+        omega
+
+open MemoryProtection in
+theorem new_wf (frags : List Fragment) (m : Mem) (hp : ∀ f ∈ frags, ∀ r ∈ f.regs, r.LengthPreserving)
+    (h : Mem.new frags = .ok m) :
+    m.WF ∧ memorySize frags = some m.raw.length ∧ m.observers = [] := by
+  unfold Mem.new at h
+  split at h
+  · cases h
+  · next n hn =>
+    split at h
+    · next raw mp h1 =>
+      cases h
+      obtain ⟨h2, h3, h4⟩ := initFragments_sizes _ _ _ _ _ hp h1
+      have hc := new_capacity n
+      simp only [List.length_replicate] at h2
+      refine ⟨⟨by simp only [h3, h2]; rfl, ?_⟩, by rw [hn, h2], rfl⟩
+      simp only [capacity, h4, h2] at hc ⊢
+      exact hc.1
+    · cases h
+    · cases h
+
+/-- the default `write` and the bit-field `write` keep the image length -/
+theorem defaultWrite_length {α} (address len : Nat) (ser : α → R Bytes) (v : α) (raw raw' : Bytes)
+    (h : defaultWrite address len ser v raw = .ok raw') : raw'.length = raw.length := by
+  unfold defaultWrite at h
+  split at h
+  · exact splice_length _ _ _ _ _ h
+  · cases h
+  · cases h
+
+theorem bfWrite_length {w : Nat} (e : Endian) (sg : Bool) (lsb msb : Nat) (mn mx : Int) (address len : Nat)
+    (data : BitVec w) (raw raw' : Bytes)
+    (h : bfWrite e sg w lsb msb mn mx address len data raw = .ok raw') : raw'.length = raw.length := by
+  unfold bfWrite at h
+  split at h
+  · cases h
+  · cases h
+  · split at h
+    · cases h
+    · cases h
+    · next cur hc =>
+      split at h
+      · cases h
+      · cases h
+      · cases h
+        unfold slice at hc
+        split at hc
+        · next hcond =>
+          cases hc
+          simp only [writeWordFront, List.length_append, List.length_take, List.length_drop]
+          omega
+        · cases hc
+
 end CamVerif.Memory
